@@ -1114,7 +1114,7 @@ func resultOfJSON(data []byte) (map[string]any, []byte, error) {
 }
 
 // flagSplit moves what the CLI has flags for out of the JSON options.
-func flagSplit(c Case) (credit, debit bool, date string, rest Opts) {
+func flagSplit(c Case) (credit, debit bool, rest Opts) {
 	rest = c.Opts
 	if c.Pass != "flags" {
 		return
@@ -1142,7 +1142,7 @@ func runCLI(c Case, input []byte) (any, error) {
 	if c.Op == "replicate" {
 		return cli.Replicate(ctx, &cli.ReplicateOptions{ParseOptions: po})
 	}
-	credit, debit, _, rest := flagSplit(c)
+	credit, debit, rest := flagSplit(c)
 	co := &cli.CorrectOptions{ParseOptions: po, Credit: credit, Debit: debit}
 	if c.Pass == "flags" && rest.IssueDate != "" {
 		d, err := parseDate(rest.IssueDate)
@@ -1195,7 +1195,7 @@ func runExec(c Case, input []byte) (stdout []byte, errText string, infra string)
 	}
 	args := []string{c.Op}
 	if c.Op == "correct" {
-		credit, debit, _, rest := flagSplit(c)
+		credit, debit, rest := flagSplit(c)
 		if credit {
 			args = append(args, "--credit")
 		}
@@ -2042,22 +2042,33 @@ func enumExec(yield func(Case) bool) {
 		}
 		pool = append(pool, Case{Path: d.doc.Path, Op: "replicate", Entry: "exec", Sign: di%2 == 0 && d.code != "", SrcDates: di%3 == 0})
 	}
-	// a seed-rotated, evenly spread sample; every shard takes its own slice
+	// a seed-rotated sample without repetition (stride coprime with the pool
+	// size); every shard takes its own part of it
+	n := len(pool)
 	total := budget * cfg.Shards
-	if total > len(pool) {
-		total = len(pool)
+	if total > n {
+		total = n
 	}
-	step := len(pool) / total
-	off := int(cfg.Seed % uint64(step+1))
+	stride := 7919 % n
+	for stride < 1 || gcd(stride, n) != 1 {
+		stride++
+	}
+	off := int(cfg.Seed % uint64(n))
 	for i := 0; i < total; i++ {
 		if i%cfg.Shards != cfg.Shard {
 			continue
 		}
-		j := (off + i*step + i*7) % len(pool)
-		if !yield(pool[j]) {
+		if !yield(pool[(off+i*stride)%n]) {
 			return
 		}
 	}
+}
+
+func gcd(a, b int) int {
+	for b != 0 {
+		a, b = b, a%b
+	}
+	return a
 }
 
 // ---------------------------------------------------------------------------
